@@ -13,9 +13,9 @@ Theorem lookup_any_work s t : InvSome s ->
   (forall r, get_by_hash s t = Some r <-> In r s /\ id r = t) /\ (get_by_hash s t = None <-> ~ In t (ids s)).
 Proof. intros H. apply lookup_spec_wf, inv_wf, H. Qed.
 
-Theorem by_height_any_work s h c : InvSome s -> - two63 <= h + count_of c - 1 < two63 ->
+Theorem by_height_any_work s h c : InvSome s ->
   (forall r, In r (by_height_range s h c) -> In r s /\ h <= height r <= h + count_of c - 1) /\
-  (forall r, In r s -> st r = Longest -> h <= height r <= h + count_of c - 1 -> In r (by_height_range s h c)).
+  (forall r, In r s -> height r < two63 -> st r = Longest -> h <= height r <= h + count_of c - 1 -> In r (by_height_range s h c)).
 Proof. intros _. apply by_height_spec. Qed.
 
 Theorem ancestors_any_work s a b : InvSome s -> regular s a -> ancestors_answer_ok s a b (ancestors s a b).
